@@ -4,6 +4,9 @@ from vf.engine import Cond
 from harness import ilv
 from harness.c04 import geometries, cfg_params, cfg_pre
 
+MANIFEST_LEVEL = "Relational check: the real sampler constructed with start_epoch / start_update / start_sample at epoch boundary k must produce exactly the oracle's suffix of the uninterrupted run (same set_epoch numbers, side passes, stopping point) or refuse explicitly; geometry, k and interval lengths enumerated, budget and config sizes symbolic."
+MANIFEST_NOTE = 'Trusted: CrossHair/z3; the uninterrupted run is represented by the oracle that C04/C05 tie to the real code. Outside: non-boundary checkpoints (refused by the constructor).'
+MANIFEST_TECHNIQUE = "bounded symbolic execution of the real code (CrossHair on z3): solver verdict over all values within the bounds, per enumerated configuration; counterexamples replayed concretely"
 PROPERTY = "C06"
 ENCODED = [
     "kappadata.samplers.interleaved_sampler:InterleavedSampler.__init__",
